@@ -163,6 +163,7 @@ Section RespProofs.
     - destruct (hsent s); reflexivity.
     - destruct (tsent s) eqn:E; cbn; [exact E|reflexivity].
     - reflexivity.
+    - reflexivity.
   Qed.
 
   Lemma trls_srun s ops :
@@ -178,6 +179,7 @@ Section RespProofs.
     - destruct (hsent s); reflexivity.
     - rewrite Ht. cbn. rewrite <- app_assoc. reflexivity.
     - reflexivity.
+    - reflexivity.
   Qed.
 
   Lemma no_trailer_written s ops :
@@ -190,6 +192,7 @@ Section RespProofs.
     - destruct (hsent s); cbn; repeat constructor.
     - destruct (tsent s); constructor.
     - repeat constructor.
+    - constructor.
   Qed.
 
   (* the envelopes of a whole streaming RPC: what the handler's program wrote,
